@@ -9,10 +9,12 @@ PROP = dict(
              "2-5 bidders (rich, poor, unfunded), bid factor in {0, 1e-6, 0.01, 0.05, 0.1, 1/3, 1}, 8-30 ops: bids that are barely improving (exact threshold), "
              "threshold-1, equal, lower, zero, negative, unaffordable, wrong denom, wrong expected-user-token; block hooks at small steps and exactly on / one second "
              "past bid_end and end (restart without bids, close with bids), closes that fail (collector without the lot, tokenmint supply too small); "
-             "limit cases (2 of 8, plus 3 corpus cases that always run first: the witnesses of the repaired defects C11-F1 amount, C11-F1 denom, C11-F2): "
+             "limit cases (2 of 8, plus 8 corpus cases that always run first: the witnesses of the repaired defects C11-F1 amount, C11-F1 denom, C11-F2; "
+             "the thorough-tier history in which a bid is cut down to the left-over collateral below the penalty; a record above the debt of an under-collateralised "
+             "auction with a sufficient and with an insufficient app reserve; the cut-down history with an insufficient reserve next to another depositor; two records below the debt in one closure; a record above the debt followed by a second record): "
              "2-5 depositors, 3 debt denoms / markets, closing and withdrawal fee in {0, 1e-6, 0.005, 0.01, 0.1, 1}, 8-44 ops: deposit, cancel "
              "(repeated, foreign), withdraw with amount in {own, own+1, own-1, 2*own+900000, 0, 1, 2900000, own/2} and 18% foreign denoms held by the module; "
-             "in 55% of the limit cases 1-2 Dutch auctions of an external initiator (debt 0.5-3 M, penalty in {0, 5, 120000}, collateral 0.5x-10x, app reserve none/small/big) "
+             "in 55% of the limit cases 1-2 Dutch auctions of an external initiator (debt 0.5-3 M, penalty in {0, 5, 120000}, collateral 0.5x-10x, app reserve none / too small for the shortfall / big) "
              "run on the book's market and blocks (the real auctionsV2.BeginBlocker) are aimed at the discount of live records: the automatic fill "
              "(LimitOrderBid) is exercised with records below / equal to / above the auction debt, several records per closure, committed and rolled-back closures. "
              "non-trivial = english: at least one accepted bid over a standing bid (a refund happened); limit: at least one accepted deposit and one accepted "
@@ -21,8 +23,10 @@ PROP = dict(
                   "the automatic fill (LimitOrderBid) is modelled per auction closure (the loop over the listed records against the auction debt read before the loop, "
                   "the early return of the equal-amount branch, all-or-nothing); which closures run, their listing, the auction debt and whether the closure was committed are read "
                   "off the implementation (a throw-away AuctionIterator run on a cache context, the auction afterwards); the Dutch settlement (PlaceDutchAuctionBid: collateral "
-                  "pay-out, burn, fees, reserve) is an environment input: only its net effect on the module's debt-denom coins is replayed",
-                  "limit-bid custody is measured on the module balance minus the proceeds that running Dutch auctions keep in the module (TargetDebt - outstanding debt) minus the balance at case start",
+                  "pay-out, burn, fees, reserve) is an environment input: only its net effect on the module's free debt-denom coins is replayed (signed: the app reserve "
+                  "pays into the module when the collateral runs short)",
+                  "limit-bid custody is measured on the module balance minus the proceeds that running Dutch auctions keep in the module (TargetDebt - outstanding debt) minus the penalties "
+                  "of closed external auctions booked as module fees (AuctionLimitBidFeeDataExternal) minus the balance at case start",
                   "limit-bid fee bookkeeping record (the code never records a limit-bid fee under the debt asset: the variable is shadowed in the not-found branch), per-address index and bidding-id counter are not modelled"],
         assumptions=["ESM / kill-switch not triggered (the generation 1 statusEsm close path is not modelled)", "bidder accounts are plain accounts (ids >= 0), distinct from the module accounts",
                      "bid denom <> lot denom (enforced by the collector: CollectorAssetID != SecondaryAssetID)", "0 <= closing/withdrawal fee <= 1 for the limit-bid custody / own-deposit theorems",
